@@ -58,3 +58,34 @@ Qed.
 Theorem star_in_text_is_literal : wildcard_match [97; star; 98] [97; star; star; 98] = true /\
                                   wildcard_match [97; 98] [97; star; 98] = false.
 Proof. vm_compute. split; reflexivity. Qed.
+
+(* Compositionality: a concatenated pattern matches exactly the concatenations of texts its parts match
+   (arbitrary patterns: any number and placement of `*` in either part). *)
+Lemma glob_app p t q u : Glob p t -> Glob q u -> Glob (p ++ q) (t ++ u).
+Proof.
+  intros Hp Hq. induction Hp as [|p0 u0 t0 _ IH|c p0 t0 Hc _ IH]; cbn [app].
+  - exact Hq.
+  - rewrite <- app_assoc. now constructor.
+  - now constructor.
+Qed.
+
+Lemma glob_split p q : forall t, Glob (p ++ q) t -> exists t1 t2, t = t1 ++ t2 /\ Glob p t1 /\ Glob q t2.
+Proof.
+  induction p as [|c p IH]; cbn [app]; intros t H.
+  - exists [], t. repeat split; [constructor | exact H].
+  - inversion H as [|p0 u0 t0 H0|c0 p0 t0 Hc H0]; subst.
+    + destruct (IH _ H0) as (a & b & -> & Ha & Hb).
+      exists (u0 ++ a), b. rewrite app_assoc. repeat split; [now constructor | exact Hb].
+    + destruct (IH _ H0) as (a & b & -> & Ha & Hb).
+      exists (c :: a), b. repeat split; [now constructor | exact Hb].
+Qed.
+
+Theorem concat_pattern p q t :
+  wildcard_match (p ++ q) t = true <->
+  exists t1 t2, t = t1 ++ t2 /\ wildcard_match p t1 = true /\ wildcard_match q t2 = true.
+Proof.
+  rewrite wildcard_match_spec. split.
+  - intro H. destruct (glob_split _ _ _ H) as (a & b & -> & Ha & Hb).
+    exists a, b. now rewrite !wildcard_match_spec.
+  - intros (a & b & -> & Ha & Hb). rewrite wildcard_match_spec in Ha, Hb. now apply glob_app.
+Qed.
